@@ -1,11 +1,13 @@
 import NanoVerif.Model.DriverMain
 import NanoVerif.Driver.Solver
+import NanoVerif.Driver.SolverNM
 /-! line-protocol driver of C02 (must not import Mathlib, directly or indirectly) -/
 open NanoVerif
 
 def handle (fam : String) (rest : List String) : Option String :=
   match fam with
   | "solver2" => Driver.Solver.handleC02 rest
+  | "solvernm" => Driver.SolverNM.handle rest
   | _ => none
 
 def main : IO Unit := DriverMain.run handle
